@@ -28,8 +28,8 @@ def import_deep():
         raise RuntimeError("deep imported from %s, expected under %s" % (deep.__file__, SRC))
     for m in pkgutil.walk_packages(deep.__path__, "deep."):
         name = m.name
-        if ".plugin.otel" in name or "otel_metrics" in name or "prometheus" in name:
-            continue  # optional third-party integrations: imported on demand by the plugin loader only
+        # everything is imported up front (also the optional integrations the plugin loader imports on demand):
+        # a first-time import inside a traced thread would deliver module-body trace events in one run only
         try:
             importlib.import_module(name)
         except Exception:  # noqa
